@@ -127,6 +127,15 @@ ReadingsAgreeOutsideCorner ==
     \A a \in Valid : ~OpenCorner(cfg, st, a) =>
         Lookup([cfg EXCEPT !.nofb = "existing"], st, a) = Lookup([cfg EXCEPT !.nofb = "system"], st, a)
 
+\* the override a fallback subproject registers while it is configured for a lookup is filed for that very
+\* lookup: whatever the static keyword, the global and the subproject's own default_library
+StaticLookupSeesOwnFallback ==
+    \A dl \in DefLibs, sdl \in {"none"} \cup DefLibs, s \in StaticKws : s \in OvrIds(SubKind(dl, sdl, s))
+ASSUME StaticLookupSeesOwnFallback
+\* the answer does not depend on the keyword: Lookup is a function of the arguments without it
+StaticIrrelevant ==
+    \A a \in Valid, s \in StaticKws : Lookup(cfg, st, [con |-> a.con, fb |-> a.fb, req |-> a.req, af |-> a.af, static |-> s]) = O(a)
+
 \* the model's input space, for the implementation harness
 EmitSpace == TLCGet("stats").diameter >= 0
              /\ JsonSerialize("deplookup_space.json",
